@@ -487,7 +487,10 @@ def main(chk):
     chk.cov["pool"] = POOL
     chk.cov["rule"] = ("seed-independent enumeration: every Go built-in property of every global object called directly with 0, 1, 2 (pool x pool) "
                        "and 3 arguments and with keyword arguments; every property name on every pool receiver in source form with 0-2 arguments "
-                       "and through every chain; all infix/prefix operators, indexing and slicing over the pool; literal and variable calls; "
+                       "and through every chain; all infix/prefix operators, indexing and slicing over the pool; literal and variable calls; a syntax-directed "
+                       "family (every construct with every pool value and every raising expression in every hole); integers around table / cache sizes; "
+                       "sequences of 180 distinct values through each built-in in one process, then the first ones again; every Iterable / Diamond method "
+                       "on stdin contents with lines up to 200000 bytes; "
                        "plus a seeded stream of malformed sources (token soup, truncated / mutated corpus programs, raw bytes, deep nesting) and stdin "
                        "contents. A case is non-trivial when it ends in a value, a Pangaea error or a syntax error (not discarded).")
     if kinds.get("norun"):
